@@ -3,21 +3,22 @@
 # /repo untouched) and records the verdict in /verif/seeded/<ID>/detection.json. usage: tools/eval_seeds.sh [ID...]
 cd /verif
 ids=${@:-$(ls seeded)}
-for id in $ids; do
-  p=seeded/$id/patch.diff; [ -f $p ] || continue
-  ov=/tmp/ovl/eval-$id
+for sid in $ids; do
+  id=${sid%%-*}
+  p=seeded/$sid/patch.diff; [ -f $p ] || continue
+  ov=/tmp/ovl/eval-$sid
   if ! git -C /repo apply --check $PWD/$p 2>/dev/null; then
-    echo "$id: patch does not apply to the current tree (see seeded/$id/NOTE.md)"; continue
+    echo "$sid: patch does not apply to the current tree (see seeded/$sid/NOTE.md)"; continue
   fi
-  tools/mk_overlay.sh $p $ov >/dev/null || { echo "$id: overlay failed"; continue; }
+  tools/mk_overlay.sh $p $ov >/dev/null || { echo "$sid: overlay failed"; continue; }
   out=$(VERIF_OVERLAY=$ov/overlay.json bin/check $id 2>&1); rc=$?
   sig=$(echo "$out" | grep "^violation detail" | head -1 | sed 's/^violation detail: //' | cut -c1-300)
   path=$(echo "$out" | grep "^  path:" | head -1 | sed 's/^  path: //')
-  python3 - "$id" "$rc" "$sig" "$path" <<'PY'
+  python3 - "$id" "$rc" "$sig" "$path" "$sid" <<'PY'
 import json,sys
-id,rc,sig,path=sys.argv[1:5]
-json.dump({"seed":id,"check":"bin/check %s (quick tier, overlay build)"%id,"exit_code":int(rc),"caught":int(rc)==1,"first_violation":sig,"path":path},open('/verif/seeded/%s/detection.json'%id,'w'),indent=1)
-print(id, "CAUGHT" if int(rc)==1 else "MISSED(exit %s)"%rc, sig[:120])
+id,rc,sig,path,sid=sys.argv[1:6]
+json.dump({"seed":sid,"check":"bin/check %s (quick tier, overlay build)"%id,"exit_code":int(rc),"caught":int(rc)==1,"first_violation":sig,"path":path},open('/verif/seeded/%s/detection.json'%sid,'w'),indent=1)
+print(sid, "CAUGHT" if int(rc)==1 else "MISSED(exit %s)"%rc, sig[:120])
 PY
   rm -rf $ov
 done
